@@ -1,5 +1,5 @@
 PROPERTY = "C01"
-LEVEL = "proof"
+LEVEL = "model_checking"
 FUNCTIONS = [
     "sqfs_meta_writer_write_inode", "write_block_sizes", "write_dir_index",
     "sqfs_meta_reader_read_inode", "read_inode_file", "read_inode_file_ext", "read_inode_slink",
